@@ -90,7 +90,8 @@ prop("C02", ["PepitVerif/Props/C02.lean", "PepitVerif/Props/C13.lean"], only=[r"
      assumptions=["eigendecomposition/QR accuracy and feasibility up to solver tolerance are floating-point facts: monitored numerically, not proved"])
 
 prop("C03", ["PepitVerif/Props/C03.lean", "PepitVerif/Props/C03LMI.lean", "PepitVerif/Props/C03Quad.lean", "PepitVerif/Math/ClassForms.lean", "PepitVerif/Math/Convex.lean"],
-     streams=[stream("cls (class constraints of all 24 classes: names, senses, decompositions, LMIs)", "cls", 200, 4000)],
+     streams=[stream("cls (class constraints of all 24 classes: names, senses, decompositions, LMIs)", "cls", 200, 4000),
+              stream("collect (class constraints as generated at solve time: partitions, composites, block-smooth functions sampled through multiples)", "collect", 100, 2000, env={"PEPV_TEE": "1", "STUBS": "1"}, offset=151)],
      direct=[oracle("c03_members", 260, 2600)],
      trusted=["class membership predicates in first-order form (the equivalence with 'gradient is L-Lipschitz' is textbook and not re-proved)"])
 
@@ -111,14 +112,16 @@ prop("C06", ["PepitVerif/Props/C06.lean", "PepitVerif/Math/AlgebraSem.lean", "Pe
      direct=[oracle("c06_trees", 300, 6000), oracle("c06_kinds", 1, 1)])
 
 prop("C07", ["PepitVerif/Props/C07.lean", "PepitVerif/Math/OracleInv.lean", "PepitVerif/Math/OracleFresh.lean", "PepitVerif/Math/OneValue.lean", "PepitVerif/Math/DictEqv.lean", "PepitVerif/Math/AFunSpec.lean", "PepitVerif/Math/DistributeSpec.lean", "PepitVerif/Math/AddPointSpec.lean", "PepitVerif/Math/RemainderSem.lean", "PepitVerif/Math/AFunSem.lean"],
-     streams=[stream("oracle (call sequences on leaf/composite functions; World = AFun = implementation)", "oracle", 300, 8000)],
+     streams=[stream("oracle (call sequences on leaf/composite functions; World = AFun = implementation)", "oracle", 300, 8000),
+              stream("steps (what the primitive steps record on leaf and composite functions, incl. mirror maps sharing a leaf with the objective)", "steps", 150, 3000, offset=139)],
      direct=[oracle("c07_fuzz", 300, 6000)],
-     assumptions=["exact arithmetic: the rounding of remainder / weight is not modelled", "run_inv covers every sequence of oracle/gradient/value calls; stationary_point / fixed_point / steps are covered by the one-step theorems and the streams only", "run_inv assumes Struct: a composite flagged non-differentiable has a non-differentiable term of non-zero weight (false for h = f1 + 0*f2 with f2 non-differentiable)"])
+     assumptions=["exact arithmetic: the rounding of remainder / weight is not modelled", "run_inv covers every sequence of oracle/gradient/value/stationary_point/fixed_point calls (each valid when made); the primitive steps are covered by the steps stream only", "run_inv assumes Struct: a composite flagged non-differentiable has a non-differentiable term of non-zero weight (false for h = f1 + 0*f2 with f2 non-differentiable)"])
 
 prop("C08", ["PepitVerif/Props/C08.lean", "PepitVerif/Math/StepsSem.lean"],
-     streams=[stream("steps (all 8 steps, every option, leaf/composite functions, leaf/combination starts)", "steps", 300, 6000, offset=59)],
+     streams=[stream("steps (all 8 steps, every option, leaf/composite functions, leaf/combination starts)", "steps", 300, 6000, offset=59),
+              stream("collect (side constraints recorded by steps on composite functions reach the solver, also when the same combination is written twice)", "collect", 100, 2000, env={"PEPV_TEE": "1", "STUBS": "1"}, offset=149)],
      direct=[oracle("c08_steps", 300, 5000)],
-     assumptions=["real_sound is proved for the proximal, linear-optimisation and inexact-gradient steps; exact line search, Bregman and ε-subgradient/inexact-prox real sides are not formalised"])
+     assumptions=["real_sound is proved for the proximal, linear-optimisation, inexact-gradient, exact line-search (smooth functions) and Bregman gradient steps; Bregman proximal, ε-subgradient and inexact-prox real sides are not formalised"])
 
 prop("C09", ["PepitVerif/Props/C09.lean", "PepitVerif/Math/Certificate.lean", "PepitVerif/Props/C10.lean"], only=[r"C09\.", "cert_sound", "trace_mul_nonneg", "gd_no_run_beats_bound", "gd_contraction_n", "gd_contraction_upper", "subgradient_bound", "subg_telescope", "pg_contraction", "prox_nonexpansive"],
      streams=[stream("steps (recorded relations of the steps the examples are built from)", "steps", 100, 2000, offset=61),
@@ -153,7 +156,8 @@ prop("C14", ["PepitVerif/Props/C14.lean"],
 prop("C12", ["PepitVerif/Props/C12.lean"],
      streams=[stream("collect in one interpreter history (every program starts with PEP(); the model starts fresh)", "collect", 150, 3000, offset=23),
               stream("cls in one interpreter history", "cls", 100, 2000, offset=29),
-              stream("tree in one interpreter history (module-level null_point / null_expression as operands and accumulators)", "tree", 150, 3000, offset=103)],
+              stream("tree in one interpreter history (module-level null_point / null_expression as operands and accumulators)", "tree", 150, 3000, offset=103),
+              stream("flow (the calls made to the solver, incl. the dimension-reduction stage, are the same whatever the verbosity)", "flow", 150, 2000, script="corr_c14.py", offset=157)],
      direct=[oracle("c12_history", 12, 150)])
 
 prop("C13", ["PepitVerif/Props/C13.lean"],
